@@ -328,4 +328,15 @@ def routeUse (cur add : Nat) : Option Nat :=
 def groupAttach (grp cur : Nat) : Option Nat :=
   if grp > 0 then (if ((grp + cur : Nat) : Int) ≥ abortIndex then none else some (grp + cur)) else some cur
 
+/-! ### a concrete chain for the non-vacuity examples of Props/C05 -/
+
+/-- abort after Next() in the 2nd of 5 handlers, with two handlers suspended (0 and 1); handler 1 calls
+    Next() again after the abort; handlers 2–4 had already run inside the first Next() -/
+def demoAbort : List Handler :=
+  [[.emit 1, .next, .isAborted 2, .emit 3],
+   [.emit 4, .next, .abortWithStatus 403, .next, .isAborted 5, .emit 6],
+   [.isAborted 7, .next, .emit 8],
+   [.emit 9],
+   [.emit 10]]
+
 end Rux.Chain
